@@ -77,4 +77,290 @@ structure KwRow where
   strictRejects : Bool
   deriving Repr, DecidableEq
 
+/-! ## the general converter: `fromJS`, a transcription of jsonschema/from.go over the keyword AST -/
+
+inductive E
+  | panic                      -- the conversion panics (Literal(nil))
+  | unsupported (kw : Str)     -- strict mode: unsupported keyword
+  deriving Repr, DecidableEq
+
+abbrev R := Except E S
+
+/-- what `convert` reads off one schema object; sub-schemas are kept as conversion RESULTS so
+    that an error in a sibling the dispatch ignores is ignored as well. -/
+structure Parts where
+  ref : Option R := none
+  others : List Str := []
+  allOf : Option (List R) := none
+  anyOf : Option (List R) := none
+  oneOf : Option (List R) := none
+  const : Option Prim := none
+  enum : Option (List Prim) := none
+  types : List TypeName := []
+  format : Option (Str × List Str) := none
+  minLength : Option Nat := none
+  maxLength : Option Nat := none
+  pattern : Option Pat := none
+  minimum : Option Int := none
+  maximum : Option Int := none
+  exMin : Option Int := none
+  exMax : Option Int := none
+  mul : Option Int := none
+  items : Option R := none
+  prefixItems : Option (List R) := none
+  minItems : Option Nat := none
+  maxItems : Option Nat := none
+  properties : Option (List (Str × R)) := none
+  required : List Str := []
+  addl : Option (Option Bool × R) := none      -- (boolean-schema value if boolean, conversion result)
+
+def slistOf : List S → SList
+  | [] => .nil
+  | s :: ss => .cons s (slistOf ss)
+
+def shapeOf : List (Str × S) → Shape
+  | [] => .nil
+  | (k, s) :: r => .cons k s (shapeOf r)
+
+/-- `convertSchemaList`: the first error wins. -/
+def seqR : List R → Except E (List S)
+  | [] => .ok []
+  | r :: rs => match r with
+      | .error e => .error e
+      | .ok s => match seqR rs with
+          | .error e => .error e
+          | .ok ss => .ok (s :: ss)
+
+def patCk : Pat → StrCk
+  | .pre s => .sw s
+  | .suf s => .ew s
+  | .has s => .inc s
+  | .noUp => .lower
+  | .noLow => .upper
+
+def convString (p : Parts) : S :=
+  match p.format with
+  | some (name, good) =>
+      if knownFormats.contains name then .enum good      -- dedicated schema; minLength/maxLength/pattern ignored
+      else .str (optL p.minLength .min ++ optL p.maxLength .max ++ optL p.pattern patCk)
+  | none => .str (optL p.minLength .min ++ optL p.maxLength .max ++ optL p.pattern patCk)
+
+def convNumber (p : Parts) : S :=
+  .flt (optL p.minimum .gte ++ optL p.maximum .lte ++ optL p.exMin .gt ++ optL p.exMax .lt ++ optL p.mul .mul)
+
+/-- `int64(val)` of a bound given in quarters: truncation toward zero. -/
+def truncQ (q : Int) : Int := Int.tdiv q 4
+
+def convInteger (p : Parts) : S :=
+  .int .int (optL p.minimum (fun q => .gte (truncQ q)) ++ optL p.maximum (fun q => .lte (truncQ q))
+    ++ optL p.exMin (fun q => .gt (truncQ q)) ++ optL p.exMax (fun q => .lt (truncQ q))
+    ++ optL p.mul (fun q => .mul (truncQ q)))
+
+def convArray (p : Parts) : R :=
+  match p.prefixItems with
+  | some (r :: rs) =>                    -- convertTuple: minItems / maxItems are not read
+      match seqR (r :: rs) with
+      | .error e => .error e
+      | .ok items =>
+          match p.items with
+          | some (.error e) => .error e
+          | some (.ok rest) => .ok (.tup (.some rest) [] (slistOf items))
+          | none => .ok (.tup .none [] (slistOf items))
+  | _ =>
+      match (match p.items with | some r => r | none => .ok .any) with
+      | .error e => .error e
+      | .ok it => .ok (.slice it (optL p.minItems .min ++ optL p.maxItems .max))
+
+/-- `makeOptional`: only these concrete schema types are wrapped. -/
+def makeOptional : S → S
+  | .str cks => .opt (.str cks)
+  | .int .int cks => .opt (.int .int cks)
+  | .flt cks => .opt (.flt cks)
+  | .bool => .opt .bool
+  | .slice e cks => .opt (.slice e cks)
+  | .obj m c pt cks sh => .opt (.obj m c pt cks sh)
+  | s => s
+
+/-- properties whose conversion returns an error are skipped; a panic is not an error. -/
+def convProps (req : List Str) : List (Str × R) → Except E (List (Str × S))
+  | [] => .ok []
+  | (k, .ok s) :: r =>
+      match convProps req r with
+      | .ok rest => .ok ((k, if req.contains k then s else makeOptional s) :: rest)
+      | .error e => .error e
+  | (_, .error .panic) :: _ => .error .panic
+  | (_, .error (.unsupported _)) :: r => convProps req r
+
+def convObject (p : Parts) : R :=
+  match p.properties with
+  | some (kv :: kvs) =>
+      match convProps p.required (kv :: kvs) with
+      | .error e => .error e
+      | .ok fields =>
+      let shape := shapeOf fields
+      match p.addl with
+      | some (some false, _) => .ok (.obj .strict .none false [] shape)
+      | some (none, .ok c) => .ok (.obj .strip (.some c) false [] shape)     -- catch-all on a strip-mode object
+      | some (none, .error .panic) => .error .panic
+      | _ => .ok (.obj .strip .none false [] shape)
+  | _ =>
+      match p.addl with
+      | some (_, .error e) => .error e
+      | some (_, .ok v) => .ok (.record (.str []) v [])
+      | none => .ok (.obj .strip .none false [] .nil)
+
+def convOneType (p : Parts) : TypeName → R
+  | .string => .ok (convString p)
+  | .number => .ok (convNumber p)
+  | .integer => .ok (convInteger p)
+  | .boolean => .ok .bool
+  | .null => .ok .nil
+  | .array => convArray p
+  | .object => convObject p
+
+def typeOrder : List TypeName := [.string, .number, .integer, .boolean, .null, .array, .object]
+
+def convByType (p : Parts) : R :=
+  match p.types with
+  | [] => .ok .any
+  | [t] => convOneType p t
+  | ts =>
+      match seqR ((typeOrder.filter (fun t => ts.contains t)).map (convOneType p)) with
+      | .error e => .error e
+      | .ok [] => .ok .any
+      | .ok [s] => .ok s
+      | .ok ss => .ok (.union (slistOf ss))
+
+def chainAnd : S → List S → S
+  | a, [] => a
+  | a, b :: rest => chainAnd (.and a b) rest
+
+def litOf (v : Prim) : R := match v with | .null => .error .panic | v => .ok (.lit [v])
+
+def allStrs : List Prim → Option (List Str)
+  | [] => some []
+  | .str s :: r => (allStrs r).map (s :: ·)
+  | _ => none
+
+/-- `convert` after the sub-schemas have been converted.  `rejects` = the strict-mode table. -/
+def assemble (rejects : Str → Bool) (strict : Bool) (p : Parts) : R :=
+  match p.ref with
+  | some r => r                                   -- `$ref` first: siblings are not looked at
+  | none =>
+  match (if strict then p.others.find? rejects else none) with
+  | some kw => .error (.unsupported kw)
+  | none =>
+  match p.allOf, p.anyOf, p.oneOf with
+  | some (r :: rs), _, _ =>
+      match seqR (r :: rs) with
+      | .error e => .error e
+      | .ok [] => .ok .any
+      | .ok (a :: rest) => .ok (chainAnd a rest)
+  | _, some (r :: rs), _ =>
+      match seqR (r :: rs) with
+      | .error e => .error e
+      | .ok [] => .ok .any
+      | .ok [a] => .ok a
+      | .ok ss => .ok (.union (slistOf ss))
+  | _, _, some (r :: rs) =>
+      match seqR (r :: rs) with
+      | .error e => .error e
+      | .ok [] => .ok .any
+      | .ok [a] => .ok a
+      | .ok ss => .ok (.xor (slistOf ss))
+  | _, _, _ =>
+  match p.const with
+  | some v => litOf v
+  | none =>
+  match p.enum with
+  | some (v :: vs) =>
+      match allStrs (v :: vs) with
+      | some strs => .ok (.enum strs)
+      | none =>
+          match seqR ((v :: vs).map litOf) with
+          | .error e => .error e
+          | .ok ss => .ok (.union (slistOf ss))
+  | _ => convByType p
+
+mutual
+def fromJS (rejects : Str → Bool) (strict : Bool) : JS → R
+  | .bool true => .ok .any
+  | .bool false => .ok .never
+  | .node kws => assemble rejects strict (collect rejects strict kws {})
+
+def collect (rejects : Str → Bool) (strict : Bool) : KwList → Parts → Parts
+  | .nil, p => p
+  | .cons k ks, p => collect rejects strict ks (addKw rejects strict k p)
+
+def addKw (rejects : Str → Bool) (strict : Bool) : Kw → Parts → Parts
+  | .type t, p => { p with types := [t] }
+  | .types ts, p => { p with types := ts }
+  | .minLength n, p => { p with minLength := some n }
+  | .maxLength n, p => { p with maxLength := some n }
+  | .pattern q, p => { p with pattern := some q }
+  | .minimum q, p => { p with minimum := some q }
+  | .maximum q, p => { p with maximum := some q }
+  | .exclusiveMinimum q, p => { p with exMin := some q }
+  | .exclusiveMaximum q, p => { p with exMax := some q }
+  | .multipleOf q, p => { p with mul := some q }
+  | .enum vs, p => { p with enum := some vs }
+  | .const v, p => { p with const := some v }
+  | .items j, p => { p with items := some (fromJS rejects strict j) }
+  | .prefixItems js, p => { p with prefixItems := some (fromList rejects strict js) }
+  | .minItems n, p => { p with minItems := some n }
+  | .maxItems n, p => { p with maxItems := some n }
+  | .properties ps, p => { p with properties := some (fromProps rejects strict ps) }
+  | .required ks, p => { p with required := ks }
+  | .additionalProperties j, p =>
+      { p with addl := some ((match j with | .bool b => some b | _ => none), fromJS rejects strict j) }
+  | .propertyNames _, p => { p with others := p.others ++ ["propertyNames".toList.map Char.toNat] }
+  | .minProperties _, p => { p with others := p.others ++ ["minProperties".toList.map Char.toNat] }
+  | .maxProperties _, p => { p with others := p.others ++ ["maxProperties".toList.map Char.toNat] }
+  | .anyOf js, p => { p with anyOf := some (fromList rejects strict js) }
+  | .oneOf js, p => { p with oneOf := some (fromList rejects strict js) }
+  | .allOf js, p => { p with allOf := some (fromList rejects strict js) }
+  | .not _, p => { p with others := p.others ++ ["not".toList.map Char.toNat] }
+  | .format n g, p => { p with format := some (n, g) }
+  | .ref j, p => { p with ref := some (fromJS rejects strict j) }
+  | .other n, p => { p with others := p.others ++ [n] }
+
+def fromList (rejects : Str → Bool) (strict : Bool) : JSList → List R
+  | .nil => []
+  | .cons j js => fromJS rejects strict j :: fromList rejects strict js
+
+def fromProps (rejects : Str → Bool) (strict : Bool) : JSProps → List (Str × R)
+  | .nil => []
+  | .cons k j ps => (k, fromJS rejects strict j) :: fromProps rejects strict ps
+end
+
+/-! ## plain decoding: every JSON number reaches the schema as a float64 -/
+
+mutual
+def plainify : S → S
+  | .int _ _ => .never
+  | .opt s => .opt (plainify s)
+  | .nul s => .nul (plainify s)
+  | .obj m ca pt cks sh => .obj m (plainifyO ca) pt cks (plainifySh sh)
+  | .slice e cks => .slice (plainify e) cks
+  | .arr r cks it => .arr (plainifyO r) cks (plainifyL it)
+  | .tup r cks it => .tup (plainifyO r) cks (plainifyL it)
+  | .record k v cks => .record (plainify k) (plainify v) cks
+  | .union ms => .union (plainifyL ms)
+  | .xor ms => .xor (plainifyL ms)
+  | .and l r => .and (plainify l) (plainify r)
+  | s => s
+def plainifyO : SOpt → SOpt
+  | .none => .none
+  | .some s => .some (plainify s)
+def plainifyL : SList → SList
+  | .nil => .nil
+  | .cons s ss => .cons (plainify s) (plainifyL ss)
+def plainifySh : Shape → Shape
+  | .nil => .nil
+  | .cons k s r => .cons k (plainify s) (plainifySh r)
+end
+
+/-- Parse verdict of the produced schema on an `encoding/json`-decoded instance. -/
+def acceptsDecoded (s : S) (x : Json) : Bool := accepts (plainify s) x
+
 end Gozod.Jsc
